@@ -1,5 +1,7 @@
 (* Property C08 — removing a wallet erases it completely and leaves every other wallet intact.
-   Only statements here; proofs are in Ledger/RemoveProofs.v.
+   Only statements here; proofs are in Ledger/RemoveProofs.v (the removal steps) and
+   Ledger/RemoveProofs2.v … RemoveProofs8.v (histories: C08_survivors_correct_after,
+   C08_survivors_correct_quiescent, C08_removed_stays_removed at the end of this file).
    Model: Ledger/Import.v (multi-wallet layer: status, keystore table, block records, Rollback driven
    by the block records) and Ledger/Remove.v (RemoveWallet, asyncRemove phase 1 / phase 2 rounds,
    removableTxForRemoveWallet, block-record repair, DeleteKeystore; histories [xrun]).
@@ -7,8 +9,9 @@
 From Coq Require Import List ZArith NArith Bool.
 Import ListNotations.
 Open Scope Z_scope.
-Require Import MW.Ledger.Model MW.Ledger.Spec MW.Ledger.Run MW.Ledger.Import MW.Ledger.Remove.
-Require Import MW.Ledger.RemoveProofs.
+Require Import MW.Ledger.Model MW.Ledger.Spec MW.Ledger.Run MW.Ledger.WF MW.Ledger.Import MW.Ledger.Remove.
+Require Import MW.Ledger.Proofs5 MW.Ledger.RemoveProofs.
+Require Import MW.Ledger.RemoveProofs6 MW.Ledger.RemoveProofs7 MW.Ledger.RemoveProofs8.
 
 (* ------------------------------------------------------------------ witnesses (code as found) *)
 
@@ -24,7 +27,9 @@ Definition new_branch : list xevent :=
   let b3' := {| b_id := 4; b_prev := 3; b_height := 3; b_txs := [cb 5 []] |} in
   [XDetach; XAttach b2'; XAttach b3'; XProcess b3'].
 
-(* C2: block 1 pays wallet 1; in block 2 transaction 3 spends that coin and pays ONLY wallet 2;
+(* (the general statement for the repaired code is C08_survivors_correct_after below; this witness
+   shows the code as found violated it)
+   C2: block 1 pays wallet 1; in block 2 transaction 3 spends that coin and pays ONLY wallet 2;
    wallet 2 is removed (transaction 3 is "removable": its record leaves the block record); block 2
    is reorganised away: wallet 1's coin stays marked spent although the best chain does not spend it *)
 Definition hist_frame : list xevent :=
@@ -160,3 +165,182 @@ Theorem C08_refused_while_importing : forall st w pass k,
   fst (remove_request st w pass) = st /\ snd (remove_request st w pass) <> ROk.
 Proof. exact remove_refused_while_importing. Qed.
 Print Assumptions C08_refused_while_importing.
+
+(* ------------------------------------------------------------------ histories (repaired code) *)
+
+(* The surviving wallets stay CORRECT after the removal, whatever the chain does afterwards — with one
+   environment assumption that turned out to be necessary: a block the node has disconnected is never
+   connected again.
+
+   Why.  The repaired removableTxForRemoveWallet keeps a transaction that spends a coin of another
+   managed wallet; it finds the coin's owner by looking the previous transaction up on the node's
+   CURRENT best chain (FetchTxBySha).  A removal round that runs while the node has reorganised away
+   from the block that created a survivor's coin (announcement still queued) does not find that
+   transaction, takes the spender for removable and drops its tx record.  That is harmless if the
+   handler then follows the node (the coin's block is rolled back anyway), but if the node
+   reorganises BACK onto the coin's block before the handler has processed anything, the later
+   Rollback of the spender's block no longer un-spends the survivor's coin.
+
+   Witness (repaired code): block 1 pays wallet 1; block 2's transaction 3 spends that coin and pays
+   only wallet 2; wallet 2's removal starts; the node disconnects blocks 2 and 1 and connects 1'; a
+   removal round runs (the last one); the node disconnects 1', connects block 1 AGAIN and 2'' on top
+   of it; the handler then processes the queued announcements 1' (refused: not on the node any more),
+   1 (rolls block 2 back) and 2''.  It is on the node's tip, the node's chain is well formed after
+   every event, and wallet 1 reports 0 while the chain pays it 500 unspent.  The history meets every
+   clause of [wf_xhistory] except that block 1 is connected twice (its 16th event). *)
+Definition r1 := {| b_id := 1; b_prev := 0; b_height := 1; b_txs := [cb 1 [pay 1 500]] |}.
+Definition r2 := {| b_id := 2; b_prev := 1; b_height := 2;
+                    b_txs := [cb 2 []; {| t_id := 3; t_cb := false; t_ins := [(1, 0)%N]; t_outs := [pay 2 500] |}] |}.
+Definition r1' := {| b_id := 11; b_prev := 0; b_height := 1; b_txs := [cb 11 []] |}.
+Definition r2'' := {| b_id := 22; b_prev := 1; b_height := 2; b_txs := [cb 22 []] |}.
+Definition hist_reattach : list xevent :=
+  setup ++ [XAttach r1; XProcess r1; XAttach r2; XProcess r2; XRemoveReq 2 22; XPhase1 2;
+            XDetach; XDetach; XAttach r1'; XRound 2;
+            XDetach; XAttach r1; XAttach r2''; XProcess r1'; XProcess r1; XProcess r2''].
+
+Theorem C08_survivors_after_reattach_refuted :
+  let s := xrun repaired p0 1000 20000 [g0] hist_reattach in
+  forallb (fun s' => wf_chain_b (xs_node s')) (xsims repaired p0 1000 20000 (xinit_sim [g0]) hist_reattach) = true /\
+  xfresh_b g0 [] [] (firstn 15 hist_reattach) = true /\ nth_error hist_reattach 15 = Some (XAttach r1) /\
+  xs_crashed s = false /\ snd (tip (x_w (xs_st s))) = b_id (last (xs_node s) g0) /\
+  listed (xs_st s) 2 = false /\ status_of (xs_st s) 1 = Some WReady /\
+  r_total (xreport (xs_st s) 1) = 0 /\
+  r_total (spec_report p0 (key_owner (xs_st s)) (xs_node s) 1) = 500.
+Proof. vm_compute. repeat split; reflexivity. Qed.
+Print Assumptions C08_survivors_after_reattach_refuted.
+
+(* [wf_xhistory fx p B cap g h] (Ledger/RemoveProofs6.v), environment assumptions only:
+   - the node's best chain is well formed (C01's [wf_chain]) after every event;
+   - a block is connected at most once, no block's id is the genesis' previous-hash field, a transaction
+     id names one transaction among all blocks ever connected;
+   - a script hash is issued once, and before any connected block pays it (C01's assumption);
+   - only blocks that have been connected are announced; no keystore import runs (C07's subject).
+   Everything else is free: any number of wallets created at any time, any number of removals
+   requested at any time (also several at once), every removal step (phase 1, each phase 2 round, ANY
+   cap) scheduled anywhere between node events and announcements — in particular while the node has
+   reorganised and the handler has not been told yet —, announcements skipped, stale, repeated or
+   refused, reorganisations of any depth (through blocks in which the removed wallet shared
+   transactions with survivors, spent their coins or was paid by them), restarts at any point
+   (volatile state lost, start-up catch-up).
+
+   C08_survivors_correct_after: on the repaired code, after any such history, processing the
+   announcement of the node's tip succeeds (the handler has not died, it is on the node's tip) and EVERY
+   ready wallet's report — synced height, total, spendable / withdrawable sums, the list of unspent
+   rows — is exactly what the node's best chain pays to its addresses and has not spent. *)
+Theorem C08_survivors_correct_after : forall fx p B cap g h b,
+  f_removable fx = true -> f_rollback fx = true -> f_rollback_order fx = true ->
+  wf_xhistory fx p B cap g (h ++ [XProcess b]) ->
+  last (xs_node (xrun fx p B cap [g] h)) g = b ->
+  let s := xrun fx p B cap [g] (h ++ [XProcess b]) in
+  xs_crashed s = false /\ snd (tip (x_w (xs_st s))) = b_id b /\
+  forall v, status_of (xs_st s) v = Some WReady ->
+    xreport (xs_st s) v = spec_report p (key_owner (xs_st s)) (xs_node s) v.
+Proof. exact survivors_correct_after. Qed.
+Print Assumptions C08_survivors_correct_after.
+
+(* the same at EVERY quiescent point: after any well-formed history the handler is alive, and whenever
+   its tip is the node's tip every ready wallet's report is the chain specification *)
+Theorem C08_survivors_correct_quiescent : forall fx p B cap g h,
+  f_removable fx = true -> f_rollback fx = true -> f_rollback_order fx = true ->
+  wf_xhistory fx p B cap g h ->
+  let s := xrun fx p B cap [g] h in
+  xs_crashed s = false /\
+  (snd (tip (x_w (xs_st s))) = b_id (last (xs_node s) g) ->
+   forall v, status_of (xs_st s) v = Some WReady ->
+     xreport (xs_st s) v = spec_report p (key_owner (xs_st s)) (xs_node s) v).
+Proof. exact survivors_correct_quiescent. Qed.
+Print Assumptions C08_survivors_correct_quiescent.
+
+(* C08_removed_stays_removed: when the round that finishes the removal of w has run (w was listed
+   before it and is not after it), no record of the store mentions w or one of the script hashes it
+   had — then and after ANY further events [h2] (not even required to be well formed: blocks,
+   reorganisations of any depth, restarts, other wallets' creations and removals), as long as wallet w
+   is not created again and none of its script hashes is issued again
+   ([not_recreating w shs e]: e is not CreateWallet w / NewAddress of w or of one of [shs] / an import
+   of w or of one of [shs] / a rescan batch). *)
+Theorem C08_removed_stays_removed : forall fx p B cap g h1 w h2,
+  f_removable fx = true -> f_rollback fx = true -> f_rollback_order fx = true ->
+  wf_xhistory fx p B cap g (h1 ++ [XRound w]) ->
+  let s1 := xrun fx p B cap [g] h1 in
+  let shs := sh_of_wallet (xs_st s1) w in
+  listed (xs_st s1) w = true ->
+  listed (xs_st (xrun fx p B cap [g] (h1 ++ [XRound w]))) w = false ->
+  (forall e, In e h2 -> not_recreating w shs e) ->
+  let s := xrun fx p B cap [g] (h1 ++ XRound w :: h2) in
+  mentions (xs_st s) w shs = false /\ listed (xs_st s) w = false.
+Proof. exact removed_stays_removed. Qed.
+Print Assumptions C08_removed_stays_removed.
+
+Theorem C08_wf_xhistory_check : forall fx p B cap g h, wf_xhistory_b fx p B cap g h = true -> wf_xhistory fx p B cap g h.
+Proof. exact wf_xhistory_b_sound. Qed.
+Print Assumptions C08_wf_xhistory_check.
+
+Theorem C08_not_recreating_check : forall w shs h,
+  forallb (not_recreating_b w shs) h = true -> forall e, In e h -> not_recreating w shs e.
+Proof. exact not_recreating_all_b_sound. Qed.
+Print Assumptions C08_not_recreating_check.
+
+(* non-vacuity.  Wallets 1 and 2; block 101 pays both; transaction 3 (block 102) spends a coin of each
+   and pays both; transaction 5 (block 103) spends wallet 2's new coin and pays wallet 1; wallet 2 is
+   removed with cap 1 (one credit per round): a round; the node disconnects 103 and 102 — the block of
+   the shared transaction 3 — and connects 112 (transaction 7 spends wallet 1's first coin again and
+   pays both wallets); a round runs BEFORE the handler hears of the reorganisation; 113 is connected
+   and announced (a 2-deep reorganisation of the ledger through the shared transaction, removal in
+   progress); restart; phase 1 again; the last round.  Afterwards: another block, a 2-deep stale
+   announcement, a new wallet 3 with an address, a restart, a block paying wallets 1 and 3. *)
+Definition c101 := {| b_id := 101; b_prev := 0; b_height := 1; b_txs := [cb 1 [pay 1 500; pay 2 300]] |}.
+Definition c102 := {| b_id := 102; b_prev := 101; b_height := 2;
+   b_txs := [cb 2 []; {| t_id := 3; t_cb := false; t_ins := [(1, 0); (1, 1)]%N; t_outs := [pay 1 400; pay 2 400] |}] |}.
+Definition c103 := {| b_id := 103; b_prev := 102; b_height := 3;
+   b_txs := [cb 4 [pay 2 50]; {| t_id := 5; t_cb := false; t_ins := [(3, 1)%N]; t_outs := [pay 1 400] |}] |}.
+Definition c112 := {| b_id := 112; b_prev := 101; b_height := 2;
+   b_txs := [cb 6 []; {| t_id := 7; t_cb := false; t_ins := [(1, 0)%N]; t_outs := [pay 1 450; pay 2 50] |}] |}.
+Definition c113 := {| b_id := 113; b_prev := 112; b_height := 3; b_txs := [cb 8 [pay 1 7]] |}.
+Definition c114 := {| b_id := 114; b_prev := 113; b_height := 4; b_txs := [cb 9 []] |}.
+Definition c123 := {| b_id := 123; b_prev := 112; b_height := 3; b_txs := [cb 10 [pay 1 9; pay 3 1]] |}.
+Definition hist_pre : list xevent :=
+  setup ++ [XAttach c101; XProcess c101; XAttach c102; XProcess c102; XAttach c103; XProcess c103;
+            XRemoveReq 2 22; XPhase1 2; XRound 2;
+            XDetach; XDetach; XAttach c112; XRound 2; XAttach c113; XProcess c113; XRestart; XPhase1 2].
+Definition hist_later : list xevent :=
+  [XAttach c114; XDetach; XDetach; XProcess c112; XNewWallet 3 33; XNewAddr 3 3; XRestart; XAttach c123].
+Definition hist_all : list xevent := hist_pre ++ XRound 2 :: hist_later.
+
+Example C08_history_wf :
+  wf_xhistory repaired p0 1000 1 g0 (hist_all ++ [XProcess c123]) /\
+  last (xs_node (xrun repaired p0 1000 1 [g0] hist_all)) g0 = c123.
+Proof. split; [apply wf_xhistory_b_sound|]; vm_compute; reflexivity. Qed.
+
+(* what happened on the way: wallet 2's credits go one per round (6 credits in the store, 5, 4), the
+   2-deep reorganisation through the shared transaction happens while wallet 2 is still listed, the
+   last round unlists it; wallet 1 ends with 459 = 450 + 9 *)
+Example C08_history_course :
+  map (fun k => let s := xrun repaired p0 1000 1 [g0] (firstn k hist_all) in
+                (listed (xs_st s) 2, length (credits (x_w (xs_st s))), fst (tip (x_w (xs_st s)))))
+      [12; 13; 17; 19; 21; 22]%nat
+  = [(true, 6%nat, 3); (true, 5%nat, 3); (true, 4%nat, 3); (true, 3%nat, 3); (true, 3%nat, 3); (false, 3%nat, 3)] /\
+  r_total (xreport (xs_st (xrun repaired p0 1000 1 [g0] (hist_all ++ [XProcess c123]))) 1) = 459.
+Proof. vm_compute. split; reflexivity. Qed.
+
+(* the conclusions of C08_survivors_correct_after on it (its hypotheses: C08_history_wf) *)
+Example C08_history_survivors :
+  let s := xrun repaired p0 1000 1 [g0] (hist_all ++ [XProcess c123]) in
+  status_of (xs_st s) 1 = Some WReady /\ status_of (xs_st s) 3 = Some WReady /\
+  xreport (xs_st s) 1 = spec_report p0 (key_owner (xs_st s)) (xs_node s) 1 /\
+  xreport (xs_st s) 3 = spec_report p0 (key_owner (xs_st s)) (xs_node s) 3.
+Proof. vm_compute. repeat split; reflexivity. Qed.
+
+(* the hypotheses of C08_removed_stays_removed hold for wallet 2 with h1 = hist_pre, h2 = hist_later
+   ([not_recreating_all_b_sound] turns the boolean check into the hypothesis), and so does its conclusion *)
+Example C08_history_removed_hyps :
+  wf_xhistory repaired p0 1000 1 g0 (hist_pre ++ [XRound 2]) /\
+  sh_of_wallet (xs_st (xrun repaired p0 1000 1 [g0] hist_pre)) 2 = [2%N] /\
+  listed (xs_st (xrun repaired p0 1000 1 [g0] hist_pre)) 2 = true /\
+  listed (xs_st (xrun repaired p0 1000 1 [g0] (hist_pre ++ [XRound 2]))) 2 = false /\
+  forallb (not_recreating_b 2 [2%N]) hist_later = true.
+Proof. split; [apply wf_xhistory_b_sound|]; vm_compute; repeat split; reflexivity. Qed.
+
+Example C08_history_removed :
+  let s := xrun repaired p0 1000 1 [g0] hist_all in
+  mentions (xs_st s) 2 [2%N] = false /\ listed (xs_st s) 2 = false.
+Proof. vm_compute. split; reflexivity. Qed.
